@@ -151,8 +151,17 @@ static int c02_veq(uint64_t na, const uint16_t *a, uint64_t nb, const uint16_t *
   return view_eq(na, a, nb, b); }
 uint8_t _Zeq11QStringViewS_(uint64_t na, char *a, uint64_t nb, char *b) { return c02_veq(na, (const uint16_t*)a, nb, (const uint16_t*)b); }
 uint8_t _Zne11QStringViewS_(uint64_t na, char *a, uint64_t nb, char *b) { return !c02_veq(na, (const uint16_t*)a, nb, (const uint16_t*)b); }
-/* QStringView::toString() (inline: QString(data(), size())): a view that starts at the beginning of a model block is the whole block
-   (obligation for the solver, see above): share it instead of exploring the copy loop under an unfoldable length comparison */
+/* QStringView::toString() (inline: QString(data(), size())) and QStringView(const QString&) (inline). The views of this code base are whole
+   strings: of a model block (offset 56), of a static QStringData (QStringLiteral / operator""_s: offset 24) or of a raw UTF-16 literal (offset 0).
+   toString() of the first two gives back the SAME string data (obligation: view length == string length, left to the solver), a raw literal is
+   copied into a block with content id. No branch goes through strlen / reference counting, and the view of a null QString keeps shared_null's
+   data pointer (not nullptr: QStringView::isNull() is not used by the parsers) so that no NULL alternative enters later pointer terms. */
 void _ZNK11QStringView8toStringEv(char *ret, char *self) { uint64_t n = *(uint64_t*)self; uint16_t *p = *(uint16_t**)(self + 8);
-  if (p && VP_IS_QS(p)) { ASSERT(QSBLK(p)->h.f1 == n, "C02 env: toString() of a partial view of a model block"); *(QAD**)ret = qad_ref(&QSBLK(p)->h); return; }
-  _ZN7QStringC1EPK5QChari(ret, (char*)p, (uint32_t)n); }
+  if (!p) { *(QAD**)ret = C02_EMPTY; return; }
+  uint64_t off = __CPROVER_POINTER_OFFSET(p);
+  if (off == QS_OFF) { ASSERT(QSBLK(p)->h.f1 == n, "C02 env: toString() of a partial view of a model block"); *(QAD**)ret = &QSBLK(p)->h; return; }
+  if (off == 24) { QAD *d = (QAD*)((char*)p - 24); ASSERT(d->f3 == 24 && d->f1 == n, "C02 env: toString() of a partial view of a static string"); *(QAD**)ret = d; return; }
+  if (n == 0) { *(QAD**)ret = C02_EMPTY; return; }
+  *(QAD**)ret = c02_copy16(p, (uint32_t)n, off == 0); }
+void _ZN11QStringViewC2I7QStringLb1EEERKT_(char *self, char *str) { QAD *d = *(QAD**)str; *(uint64_t*)self = (uint64_t)d->f1; *(uint16_t**)(self + 8) = qs_chars(d); }
+void _ZN11QStringViewC1I7QStringLb1EEERKT_(char *self, char *str) { QAD *d = *(QAD**)str; *(uint64_t*)self = (uint64_t)d->f1; *(uint16_t**)(self + 8) = qs_chars(d); }
